@@ -358,6 +358,31 @@ let run (t : string array) : string =
                if n = "icc" then raw_add_icc env r (unhex d) else raw_add_chunk r (unhex n) (unhex d)) r ex in
          res_str hex (raw_create env r o)
      with Oracle_miss m -> "oracle-miss " ^ m)
+  (* cli_options <flags>: o=N|max,f=a+b,timeout=N,a=1,scale16=1,fast=1,force=1,fix=1,nb=1,nc=1,np=1,ng=1,nx=1,nz=1,i=keep|0|1,
+     keep=display+hex+..,strip=safe|all|hex+hex,s=1,Z=1,zi=N,zc=N *)
+  | "cli_options" ->
+    let kv = if t.(1) = "-" then [] else List.map (fun s -> match String.index_opt s '=' with
+        | Some i -> (String.sub s 0 i, String.sub s (i + 1) (String.length s - i - 1)) | None -> (s, "1")) (split_on ',' t.(1)) in
+    let get k = List.assoc_opt k kv in
+    let flag k = get k = Some "1" in
+    let zi n = z_of_int (int_of_string n) in
+    let f = { fl_opt = (match get "o" with None -> None | Some "max" -> Some (z_of_int 7) | Some n -> Some (zi n));
+              fl_filters = (match get "f" with None -> None | Some v -> Some (List.map zi (split_on '+' v)));
+              fl_timeout = (match get "timeout" with None -> None | Some n -> Some (zi n));
+              fl_alpha = flag "a"; fl_scale16 = flag "scale16"; fl_fast = flag "fast"; fl_force = flag "force"; fl_fix = flag "fix";
+              fl_nb = flag "nb"; fl_nc = flag "nc"; fl_np = flag "np"; fl_ng = flag "ng"; fl_nx = flag "nx"; fl_nz = flag "nz";
+              fl_interlace = (match get "i" with None -> None | Some "keep" -> Some None | Some "0" -> Some (Some false) | Some _ -> Some (Some true));
+              fl_keep = (match get "keep" with None -> None | Some v ->
+                  Some (List.map (fun x -> if x = "display" then KiDisplay else KiName (unhex x)) (split_on '+' v)));
+              fl_strip = (match get "strip" with None -> None | Some "safe" -> Some SaSafe | Some "all" -> Some SaAll
+                                                | Some v -> Some (SaList (List.map unhex (split_on '+' v))));
+              fl_strip_safe = flag "s"; fl_zopfli = flag "Z";
+              fl_zi = (match get "zi" with None -> z_of_int 15 | Some n -> zi n);
+              fl_zc = (match get "zc" with None -> None | Some n -> Some (zi n)) } in
+    res_str fmt_opts (cli_options f)
+  | "exit_code" ->
+    let rs = List.map (function "ok" -> RsOk | "failed" -> RsFailed | _ -> RsSkipped) (if t.(1) = "-" then [] else split_on ',' t.(1)) in
+    Printf.sprintf "ok %d" (int_of_z (exit_code rs))
   | "preset" -> "ok " ^ fmt_opts (from_preset (z_of_int (int_of_string t.(1))))
   | "default_opts" -> "ok " ^ fmt_opts default_options
   | "crc32" -> Printf.sprintf "ok %d" (int_of_z (crc32 (unhex t.(1))))
